@@ -251,6 +251,9 @@ UNITS = [
          trusted=["get_subcommands obeys its contract; merge_config(a, b): a overrides b (C04 contract)"]),
     Unit("C17", "jsonargparse._actions:_ActionSubCommands.__call__", call_setup, call_post, call_raises),
 ]
+from contracts.c10 import pc_post, pc_raises, pc_setup  # noqa: E402
+UNITS.append(Unit("C17", "jsonargparse._core:ArgumentParser._parse_common", pc_setup, pc_post, pc_raises, expect_cover=("return", "raise:TypeError")))
+
 VERIFIED_CALLEES = ("_ActionSubCommands.get_subcommands", "_ActionSubCommands.handle_subcommands")
 LEVEL = "other"
 TECHNIQUE = "contract-based deductive verification (VCs from the real AST; complete case analysis for <= 3 declared subcommands) + bounded run-time contract checking"
